@@ -13,7 +13,8 @@ PROP = "C04"
 
 
 def s1_group(src, nmembers, times, max_faults):
-    cfg = {"member": {"auto_commit": True, "auto_commit_interval_ms": 150, "assignors": ["roundrobin"]}}
+    cfg = {"member": {"auto_commit": True, "auto_commit_interval_ms": 150, "assignors": ["roundrobin"]},
+           "vary_leaderless": True}
     scenario, plan = GO.standard_scenario(src, cfg, nmembers, times, quiet=2.5,
                                           fault_apis=(8, 9), max_fault_requests=4, max_faults=max_faults)
     res = groupsim.run_group(src, cfg, scenario)
@@ -25,7 +26,40 @@ def s1_group(src, nmembers, times, max_faults):
     GO.check_c04(src, run, res)
 
 
+def u1_committable(src, nbatches):
+    """What gets committed is all_consumed_offsets(): after every hand-out step it never passes a visible
+    record that has not been handed out (both isolation levels, transactional logs, compaction)."""
+    from aiokafka.consumer.fetcher import READ_COMMITTED, READ_UNCOMMITTED
+    from . import fetchmodel as FM
+    iso = [READ_COMMITTED, READ_UNCOMMITTED][src.choice("isolation", 2)]
+    style = ["getall", "getone", "getall1"][src.choice("style", 3)]
+    log = FM.build_log(src, nbatches, 2, max_records=2, transactional=True)
+    res = FM.run_fetch(src, log, iso, "getone" if style == "getone" else "getall", 1 if style == "getall1" else None)
+    FM.check_delivery(src, log, iso, res, prefix="committable offset: ")
+
+
 def harnesses(tier):
+    q = tier == "quick"
+    return _u1(tier) + _s1(tier)
+
+
+def _u1(tier):
+    from aiokafka.consumer.fetcher import FetchResult, PartitionRecords
+    from aiokafka.consumer.subscription_state import Assignment, TopicPartitionState
+    hs = []
+    for nb in ([1, 2] if tier == "quick" else [1, 2, 3]):
+        hs.append(Harness(
+            name=f"U1_committable_{nb}batches", fn=u1_committable, params={"nbatches": nb},
+            functions=[Assignment.all_consumed_offsets, TopicPartitionState.consumed_to, FetchResult._update_position,
+                       FetchResult.getone, FetchResult.getall, PartitionRecords._unpack_records],
+            shape="U", symbolic_vars="all offsets as unbounded z3 Ints; batch kinds, outcomes, isolation, retrieval style as choices",
+            bounds={"batches": nb, "producers": 2, "records_per_batch": "0..2"},
+            assumptions=["log well-formedness (a)-(d) of DESIGN C08-U1"], stubs=["record batches replaced by stub objects"],
+            max_seconds=300))
+    return hs
+
+
+def _s1(tier):
     q = tier == "quick"
     confs = [(2, [0.05, 0.3, 0.62], 0), (2, [0.3], 1)] if q else [(2, [0.05, 0.2, 0.3, 0.45, 0.62, 0.9], 1), (3, [0.05, 0.3, 0.62], 1)]
     hs = []
